@@ -8,7 +8,7 @@ use serde_json::{json, Value};
 use std::sync::Arc;
 use std::time::Duration;
 use trusttunnel::verif::ctx::{ConnErr, Ctx, Dest};
-use trusttunnel::verif::tunnel::{Fwd, MuxChoice, Policy, Proto};
+use trusttunnel::verif::tunnel::{ConnMeta, Fwd, MuxChoice, Policy, Proto};
 
 const ORIGIN_OK: &[u8] = b"HTTP/1.1 200 OK\r\nContent-Length: 2\r\n\r\nok";
 
@@ -242,6 +242,81 @@ fn real_forwarder_cases(rep: &Arc<Reporter>, args: &Args) {
     });
 }
 
+/// HTTP/2 sessions carrying several requests at once, each with its own destination and connect outcome:
+/// every stream must get exactly one final response with the code of *its own* outcome
+fn h2_histories(rep: &Arc<Reporter>, args: &Args, ctx: &Arc<Ctx>) {
+    let rt = env::rt_paused();
+    let outs = Arc::new(outcomes());
+    let n = args.qt(600u64, 40_000u64);
+    for h in 0..n {
+        let mut r = common::Rng::derive(args.seed, 0xc10, h);
+        let len = r.range(2, 7) as usize;
+        let outs2 = outs.clone();
+        // the outcome of a connect is chosen by the destination port: 1000 + index
+        let fwd = Arc::new(RecFwd {
+            log: Default::default(),
+            decide: Box::new(move |m: &ConnMeta| {
+                let port = match m.destination.clone() { Dest::HostName(_, p) => p, Dest::Address(a) => a.port() };
+                outs2.get((port as usize).wrapping_sub(1000)).map(|o| o.outcome.clone()).unwrap_or(Outcome::Fail(ConnErr::Other("no such outcome".into())))
+            }),
+            udp: MuxChoice::Real, icmp: MuxChoice::Real, check_auth_err: None, received: Default::default(), abandoned: Default::default(),
+        });
+        let mut reqs = vec![];
+        let mut plan: Vec<(String, String, Option<usize>)> = vec![]; // method, authority, outcome index (None = never reaches the connector)
+        for i in 0..len {
+            let pick = r.below(10);
+            let (method, authority, oi) = if pick == 0 { ("CONNECT".to_string(), "_check".to_string(), None) }
+                else if pick == 1 { ("GET".to_string(), "_check".to_string(), None) }
+                else if pick == 2 { ("CONNECT".to_string(), format!("noport{}.dest.test", i), None) }
+                else {
+                    let oi = r.below(outs.len() as u64) as usize;
+                    let m = if r.chance(2, 3) { "CONNECT" } else { *r.pick(&["GET", "POST", "HEAD"]) };
+                    (m.to_string(), format!("h{}s{}.dest.test:{}", h, i, 1000 + oi), Some(oi))
+                };
+            let mut req = Req::new(&method, &target_for(&method, &authority));
+            if method == "CONNECT" { req.end_stream = false; }
+            if method == "POST" { req = req.header("content-length", b"0"); }
+            reqs.push(req);
+            plan.push((method, authority, oi));
+        }
+        let how = How::Tunnel(Fwd::Scripted(fwd.clone()), Policy::Default);
+        let resps = rt.block_on(h2_session(ctx, how, "main.test", &reqs, Duration::from_secs(90), 200_000 + h));
+        rep.evals(1);
+        rep.distinct(common::fnv(format!("{:?}", plan).as_bytes()));
+        let witness = |i: usize, what: &str| json!({"kind":"h2-history","history":h,"stream":i,"what":what,
+            "plan":plan.iter().map(|(m, a, o)| format!("{} {} -> {}", m, a, o.map(|x| outs[x].name).unwrap_or("n/a"))).collect::<Vec<_>>(),
+            "responses":resps.iter().map(|x| x.summary()).collect::<Vec<_>>()});
+        if h % 200 == 3 { rep.sample(witness(0, "sample")); }
+        let connects = fwd.connects();
+        for (i, (method, authority, oi)) in plan.iter().enumerate() {
+            let Some(resp) = resps.get(i) else { rep.violation("H2 history: a stream got no final response", witness(i, "missing")); continue };
+            let spec = oi.map(|x| outs[x].clone()).unwrap_or_else(|| outs[0].clone());
+            let Want::Status { status, warning, connects: want_conn, .. } = reference(method, authority, &spec);
+            if resp.heads != 1 || resp.status.is_none() {
+                rep.violation("H2 history: a stream did not get exactly one final response", witness(i, &format!("{} final responses", resp.heads)));
+                continue;
+            }
+            if resp.status != Some(status) {
+                rep.violation("H2 history: a stream answered with the code of another outcome", witness(i, &format!("status {:?} instead of {}", resp.status, status)));
+                continue;
+            }
+            if let Some(code) = &warning {
+                if !resp.header("x-warning").map(|v| v.starts_with(code.as_str())).unwrap_or(false) {
+                    rep.violation("H2 history: X-Warning code of another outcome", witness(i, &format!("X-Warning {:?} instead of {}", resp.header("x-warning"), code)));
+                    continue;
+                }
+            }
+            let host = authority.rsplit_once(':').map(|(h, _)| h.to_string()).unwrap_or(authority.clone());
+            let mine = connects.iter().filter(|c| matches!(&c.destination, Dest::HostName(hh, _) if *hh == host)).count();
+            if Some(mine) != want_conn && !reserved(authority) {
+                rep.violation("H2 history: number of connect attempts for a stream's destination differs from one per request", witness(i, &format!("{} connect(s)", mine)));
+                continue;
+            }
+            rep.tally("H2 history stream: exactly one response with its own outcome's code", 1);
+        }
+    }
+}
+
 pub fn scenarios(rep: &Arc<Reporter>, args: &Args) {
     let dir = env::work_dir(&args.root, "c10");
     let ctx = Arc::new(env::make_ctx(&dir, env::CtxOpts {
@@ -249,6 +324,7 @@ pub fn scenarios(rep: &Arc<Reporter>, args: &Args) {
         ..Default::default()
     }));
     scripted_matrix(rep, args, &ctx);
+    h2_histories(rep, args, &ctx);
     real_forwarder_cases(rep, args);
 }
 
@@ -258,7 +334,7 @@ pub fn run(args: &Args) -> i32 {
         "fault_enumeration",
         "case = (protocol H1/H2, method, authority, outcome of the outbound connection attempt chosen at the forwarder boundary) through the real \
          Tunnel + HttpDownstream + codec over an in-memory session; 7 methods x 16 authorities (reserved names, case/suffix variants, with and \
-         without port, literals) x 11 outcomes (quick: reduced for non-CONNECT/GET methods), plus loopback cases with the real DirectForwarder. \
+         without port, literals) x 11 outcomes (quick: reduced for non-CONNECT/GET methods), plus seeded HTTP/2 sessions of 2-7 concurrent requests each with its own destination and outcome, plus loopback cases with the real DirectForwarder. \
          distinct_nontrivial = distinct tuples.",
     ));
     rep.assume("descriptor exhaustion is injected as Io(EMFILE) at the forwarder boundary, not by exhausting descriptors");
